@@ -8728,3 +8728,24 @@ mod tests {
         }
     }
 }
+
+// ========================================================================
+// Verification hooks (only with `--cfg crrl_verif`).
+
+#[cfg(crrl_verif)]
+impl Point {
+    /// Raw internal coordinates (X, Y, Z, T).
+    pub fn verif_coords(&self) -> [GF25519; 4] {
+        [self.X, self.Y, self.Z, self.T]
+    }
+
+    /// Rebuild a point from raw internal coordinates (not validated).
+    pub fn verif_from_coords(c: &[GF25519; 4]) -> Self {
+        Self { X: c[0], Y: c[1], Z: c[2], T: c[3] }
+    }
+
+    /// Table used by truncated signature verification.
+    pub fn verif_ux_comp() -> &'static [u64; 16385] {
+        &UX_COMP
+    }
+}
